@@ -39,6 +39,9 @@ def optics(any_norm=False, pol=None):
         "nm": st.one_of(st.sampled_from([1.0, 1.33, 1.5]), rounded(1.0, 1.7, 4)),
         "wl": st.one_of(st.sampled_from([0.405, 0.532, 0.66, 0.785, 1.064]), rounded(0.3, 1.1, 4)),
         "pol": pol if pol is not None else polarization(any_norm),
+        # how the polarization is handed over: the (x, y) pair, or the same vector with an explicit zero z component
+        # as a tuple, a list or an array
+        "pol_form": st.sampled_from(["xy", "xy", "xy", "xyz_tuple", "xyz_list", "xyz_array"]),
     })
 
 
@@ -183,8 +186,20 @@ def place(pl, det, unit, radius, k):
     return [float(cx), float(cy), float(cz)]
 
 
+def polarization_argument(o):
+    form = o.get("pol_form", "xy")
+    px, py = o["pol"]
+    if form == "xyz_tuple":
+        return (px, py, 0.0)
+    if form == "xyz_list":
+        return [px, py, 0.0]
+    if form == "xyz_array":
+        return np.array([px, py, 0.0])
+    return (px, py)
+
+
 def optics_kwargs(o):
-    return dict(medium_index=o["nm"], illum_wavelen=o["wl"], illum_polarization=tuple(o["pol"]))
+    return dict(medium_index=o["nm"], illum_wavelen=o["wl"], illum_polarization=polarization_argument(o))
 
 
 def wavevec(o):
